@@ -62,6 +62,37 @@ def _is_range_entry(b):
 CONVERTER_RE = re.compile(r'::convert_\w+$')
 
 
+_ENTRY_CACHE = {}
+_REC_CACHE = {}
+
+
+def is_recursive(w, cb):
+    """the function can reach itself in the call graph (directly, or through a closure it creates)"""
+    key = (id(w), cb.id)
+    if key not in _REC_CACHE:
+        edges, _ = w.callgraph()
+        _REC_CACHE[key] = cb.id in w.reachable(edges.get(cb.id, ()))
+    return _REC_CACHE[key]
+
+
+def entry_body(w, b):
+    """the entry with its own helpers expanded (inline.py): everything of typstyle-core outside the printer (`pretty::`) and the attribute pass
+    (`attr::`) that is not recursive - helpers in lib.rs / partial.rs / utils.rs.  Extracting a block of an entry into such a helper, or moving a
+    test into the helper that produces the tested value, leaves this body unchanged."""
+    key = (id(w), b.id)
+    if key not in _ENTRY_CACHE:
+        import inline
+
+        def pred(cb, t, depth):
+            if cb.crate is not w.core or cb.short.startswith(('pretty::', 'attr::')):
+                return False
+            if is_recursive(w, cb):
+                return False          # recursive (the cover search)
+            return True
+        _ENTRY_CACHE[key] = inline.inline_body(w, b, pred)
+    return _ENTRY_CACHE[key]
+
+
 def r1_refusal_guard(w):
     r = RuleResult('C05.R1', 'conversion is dominated by !erroneous() of the node converted; the refusal is built only on the erroneous edge', floor=8)
     core = w.core
@@ -69,7 +100,8 @@ def r1_refusal_guard(w):
                and (b.j.get('impl_self') or {}).get('s') == 'Typstyle' and 'String' in b.locals[0]['ty']['s'] and b.locals[0]['ty']['s'].startswith('std::result::Result<')]
     if len(entries) < 3:
         raise AnchorMissing('public Typstyle methods returning Result<..String..> (found %d)' % len(entries))
-    for b in entries:
+    for b0 in entries:
+        b = entry_body(w, b0)
         v = BodyView(w, b)
         guarded_calls = 0
         for bi, t in b.calls():
@@ -94,7 +126,8 @@ def r1_refusal_guard(w):
             if blk['cleanup']:
                 continue
             for s in blk['stmts']:
-                if s['s'] == 'assign' and s['p']['l'] == 0 and s['rv']['r'] == 'agg' and s['rv'].get('vname') == 'Err':
+                if s['s'] == 'assign' and s['rv']['r'] == 'agg' and s['rv'].get('vname') == 'Err' and s['rv'].get('path', '').endswith('Result') \
+                        and (s['p']['l'] == 0 or blk.get('inl')):
                     cons = {'entry': b.short, 'constructs': 'Err', 'bb': bi}
                     ok, why = _erroneous_guard(w, v, bi, want=True)
                     if ok:
@@ -117,9 +150,19 @@ def _erroneous_guard(w, v, bi, want):
     """block dominated by erroneous()==want.  Accepted idioms: direct branch; Option::filter(|..| !node.erroneous()) followed by a
     Some/None test (Some == not erroneous); for want=True additionally: the final else of a cast cascade (no Markup/Expr/Pattern)"""
     b = v.b
-    for atom, vals, sw in v.guards(bi):
+    if want:
+        return _refusal_only(w, v, bi)
+    for atom, vals, sw in v.guards_ext(bi):
+        if not isinstance(sw, int):
+            continue
         st = b.blocks[sw]['term']
         for o in v.pv.peel(v.pv.origins_operand(st['discr'])):
+            if o[0] == 'unop' and o[1][2] == 'Not' and vals in ({True}, {False}):
+                # `!node.erroneous()` tested as a value (the expanded closure of Option::filter, a hoisted local)
+                rv = b.blocks[o[1][0]]['stmts'][o[1][1]]['rv']
+                for x in v.pv.peel(v.pv.origins_operand(rv['a'])):
+                    if x[0] == 'call' and (callee_path(v.pv.call_term(x)) or '') == 'typst_syntax::SyntaxNode::erroneous' and vals == {not want}:
+                        return True, 'dominated by !erroneous()==%s' % (not want)
             if o[0] == 'call':
                 ct = v.pv.call_term(o)
                 p = callee_path(ct) or ''
@@ -140,6 +183,109 @@ def _erroneous_guard(w, v, bi, want):
         if len(nones) >= 1:
             return True, 'refusal after a failed cast cascade'
     return False, 'no dominating erroneous() test'
+
+
+COMBINATORS = re.compile(r'(Option::<T>::(filter|and_then|map|ok_or|ok_or_else|or_else|zip|take|cloned|copied)|Result::<T, E>::(map|and_then|map_err|ok|or_else)|Try>?::branch)$')
+NODE_LOOKUP = re.compile(r'^typst_syntax::(Source::find|LinkedNode::<.*>::(find|leaf_at|parent)|SyntaxNode::cast)$')
+
+
+def _refusal_only(w, v, bi, _stack=()):
+    """every path from the entry to block bi takes a *refusal edge*: the true edge of an erroneous() test, or the negative edge (None / Err / Break) of a
+    value that comes - through Option/Result combinators and `?` - from the search for the node to format (the recursive cover search, Source::find, a
+    node cast) or from Option::filter(|n| !n.erroneous()).  Decided by deleting the refusal edges and asking whether bi is still reachable."""
+    b = v.b
+    if len(_stack) > 6:
+        return False, 'too deep'
+
+    def derived(origins, depth=0):
+        for x in origins:
+            x = strip_casts(x)
+            if x[0] != 'call':
+                continue
+            ct = v.pv.call_term(x)
+            p = callee_path(ct) or ''
+            rid = resolved_id(ct)
+            cb = w.bodies.get(rid)
+            if NODE_LOOKUP.search(p):
+                return 'no node to format (%s)' % p.rsplit('::', 1)[-1]
+            if cb is not None and cb.crate is w.core and is_recursive(w, cb) and cb.locals[0]['ty']['s'].startswith('std::option::Option<'):
+                return 'no covering node (%s)' % cb.short
+            if p.endswith('Option::<T>::filter') and _filter_closure_is_not_erroneous(w, v, ct):
+                return 'Option::filter(|n| !n.erroneous())'
+            if COMBINATORS.search(p) and ct['args'] and depth < 6:
+                r_ = derived(v.pv.peel(v.pv.origins_operand(ct['args'][0])), depth + 1)
+                if r_:
+                    return r_
+        return None
+
+    reasons = set()
+
+    def refusal(sbb, vals):
+        st = b.blocks[sbb]['term']
+        for o in v.pv.peel(v.pv.origins_operand(st['discr'])):
+            o = strip_casts(o)
+            if o[0] == 'call' and (callee_path(v.pv.call_term(o)) or '') == 'typst_syntax::SyntaxNode::erroneous' and vals == {True}:
+                reasons.add('erroneous()')
+                return True
+            if o[0] == 'unop' and o[1][2] == 'Not' and vals == {False}:
+                rv = b.blocks[o[1][0]]['stmts'][o[1][1]]['rv']
+                if any(x[0] == 'call' and (callee_path(v.pv.call_term(x)) or '') == 'typst_syntax::SyntaxNode::erroneous' for x in v.pv.peel(v.pv.origins_operand(rv['a']))):
+                    reasons.add('erroneous()')
+                    return True
+            if o[0] == 'discr' and vals and vals <= {'None', 'Err', 'Break'}:
+                l, pr = o[1]
+                srcs = v.pv.peel(v.pv._origins(l, pr, frozenset()))
+                why = derived(srcs)
+                if why:
+                    reasons.add(why)
+                    return True
+                # a value built in this (expanded) body: the negative variant is built at known sites; the edge is a refusal edge when each of them
+                # is itself reachable through refusal edges only
+                want = set(vals)
+                for _ in range(3):
+                    nxt, changed = set(), False
+                    for x in srcs:
+                        x = strip_casts(x)
+                        if x[0] == 'call' and not x[2] and re.search(r'Try>?::branch$', callee_path(v.pv.call_term(x)) or ''):
+                            nxt |= v.pv.peel(v.pv.origins_operand(v.pv.call_term(x)['args'][0]))
+                            changed = True
+                        else:
+                            nxt.add(x)
+                    srcs = nxt
+                    if not changed:
+                        break
+
+                def neg_site(x):
+                    if x[0] == 'agg' and not x[2] and v.pv.agg_rvalue(x).get('vname'):
+                        return x[1][0] if v.pv.agg_rvalue(x)['vname'] in ('None', 'Err', 'Break') else -1
+                    if x[0] == 'call' and not x[2] and re.search(r'FromResidual.*::from_residual$', callee_path(v.pv.call_term(x)) or ''):
+                        return x[1][0]
+                    return None
+                sites = [neg_site(x) for x in srcs]
+                if srcs and all(z is not None for z in sites) and any(z >= 0 for z in sites):
+                    if all(_refusal_only(w, v, z, _stack + (bi,))[0] for z in sites if z >= 0 and z not in _stack):
+                        reasons.add('a refusal built earlier')
+                        return True
+        return False
+    seen, work = set(), [0]
+    while work:
+        x = work.pop()
+        if x in seen:
+            continue
+        seen.add(x)
+        if x == bi:
+            return False, 'reachable without passing an erroneous() test or a failed search for the node'
+        t = b.blocks[x]['term']
+        if t['t'] == 'switch':
+            for tgt, label in v.switch_edges(x):
+                if refusal(x, set(v.label_values(x, label))):
+                    continue
+                work.append(tgt)
+        else:
+            for sx in b.succs(x):
+                if not b.blocks[sx]['cleanup']:
+                    work.append(sx)
+    return True, 'only reachable through refusal edges (%s)' % ', '.join(sorted(reasons))
 
 
 def _filter_closure_is_not_erroneous(w, v, ft):
@@ -174,9 +320,19 @@ def r2_fallback(w):
 # --------------------------------------------------------------------------------------------- R3
 def obligations(w, bodies):
     """yield dicts describing every partial operation in the given bodies"""
+    # closures handed to std combinators / iterator consumers are judged inside the function that creates them (inline.desugared): the guard that
+    # makes their operations safe is usually the combinator itself (`rfind(..).map(|pos| &s[pos + 1..])`)
+    import inline
+    expanded, todo = set(), []
     for bid in sorted(bodies):
         b = w.bodies[bid]
         if b.promoted is not None or b.crate is not w.core:
+            continue
+        nb = inline.desugared(w, b)
+        expanded |= set(getattr(nb, 'expanded_closures', ()))
+        todo.append(nb)
+    for b in todo:
+        if b.id in expanded:
             continue
         if (b.j.get('impl_trait') or {}).get('path', '').startswith(('std::fmt', 'core::fmt')):
             continue
@@ -255,6 +411,8 @@ def discharge(w, v, ob):
                 return 'class:counter+1', 'increment by one of a counter bounded by the number of nodes/items'
             if t['binop'] == 'Add' and _is_length(v, a) and (_is_length(v, c)):
                 return 'class:length-sum', 'sum of lengths of input-derived data (bounded by the input size)'
+            if t['binop'] == 'Sub' and _len_minus_sublen(v, a, c):
+                return 'class:len-minus-sublen', 'len(x) - len(y) where y is x trimmed / stripped (a sub-slice of x is never longer than x)'
             if t['binop'] == 'Sub' and c['o'] == 'const' and c.get('int') is not None:
                 k = c['int']
                 g = _bound_guard(v, bi, a, k)
@@ -271,6 +429,14 @@ def discharge(w, v, ob):
         d1 = _kind_guard(w, v, bi, t)
         if d1:
             return 'D1', d1
+        d6 = _first_of_nonempty(w, v, ob)
+        if d6:
+            return 'D6 fact', d6
+        return None
+    if cat in ('remove', 'index'):
+        d6 = _first_of_nonempty(w, v, ob)
+        if d6:
+            return 'D6 fact', d6
         return None
     if cat == 'drain':
         # full-range drain cannot panic
@@ -287,6 +453,93 @@ def discharge(w, v, ob):
             return 'D5', why
         return None
     return None
+
+
+# D6 (facts): vectors that are never empty where their first element is taken; (function, type of the vector, reason).  Any way of taking the first
+# element is discharged by the fact: remove(0), [0], first().unwrap(), into_iter().next().unwrap()/expect(..)
+NONEMPTY_VECS = [
+    (re.compile(r'^pretty::layout::chain::\{impl#\d+\}::print_doc$'), re.compile(r'^std::vec::Vec<pretty::DocBuilder<'),
+     'a chain always yields >= 1 document: the innermost node of every resolved chain goes through the fallback converter and is pushed as Body'),
+]
+VEC_VIEW = re.compile(r'(IntoIterator>::into_iter|IntoIterator::into_iter|::iter|::iter_mut|Deref>::deref|Deref::deref|DerefMut>::deref_mut|DerefMut::deref_mut|::as_slice|::as_mut_slice)$')
+NEXT_LIKE = re.compile(r'(Iterator::next|Iterator>::next|::nth|::skip|::advance_by|::next_back|::nth_back)$')
+
+
+def _first_of_nonempty(w, v, ob):
+    b, t, bi = ob['body'], ob['term'], ob['bb']
+    facts = [(ty, why) for fn, ty, why in NONEMPTY_VECS if fn.search(b.short)]
+    if not facts:
+        return None
+
+    def vec_fact(op):
+        ors = v.pv.through(v.pv.origins_operand(op), VEC_VIEW)
+        if not ors:
+            return None
+        for ty, why in facts:
+            if all(o[0] == 'call' and not o[2] and ty.search(b.locals[v.pv.call_term(o)['dest']['l']]['ty']['s']) for o in ors):
+                return why
+        return None
+
+    def const_zero(op):
+        return op['o'] == 'const' and op.get('int') == 0
+    cat = ob['op']
+    if cat in ('remove', 'index') and len(t['args']) > 1 and const_zero(t['args'][1]):
+        why = vec_fact(t['args'][0])
+        if why:
+            return 'first element of a vector that is never empty here: %s' % why
+        return None
+    if cat in ('unwrap', 'expect'):
+        loops = cfg.natural_loops(b)
+        in_loop = lambda x: any(x in blocks for blocks in loops.values())
+        srcs = v.pv.peel(v.pv.origins_operand(t['args'][0]))
+        if not srcs:
+            return None
+        whys = set()
+        for o in srcs:
+            if o[0] != 'call' or o[2]:
+                return None
+            nt = v.pv.call_term(o)
+            p = callee_path(nt) or ''
+            if re.search(r'(::first|::first_mut)$', p):
+                why = vec_fact(nt['args'][0])
+            elif re.search(r'(Iterator::next|Iterator>::next)$', p) and not in_loop(o[1][0]):
+                why = vec_fact(nt['args'][0])
+                # the first call that advances this iterator
+                it = v.pv.peel(v.pv.origins_operand(nt['args'][0]))
+                others = [bi2 for bi2, t2 in b.calls() if bi2 != o[1][0] and NEXT_LIKE.search(callee_path(t2) or '') and t2['args']
+                          and v.pv.peel(v.pv.origins_operand(t2['args'][0])) & it]
+                if others:
+                    why = None
+            else:
+                why = None
+            if not why:
+                return None
+            whys.add(why)
+        return 'first element of a vector that is never empty here: %s' % sorted(whys)[0]
+    return None
+
+
+SUBSLICE = re.compile(r'core::str::<impl str>::(trim|trim_start|trim_end|trim_start_matches|trim_end_matches|trim_matches|trim_left|trim_right)(::<.*>)?$')
+
+
+def _len_minus_sublen(v, a, c):
+    """a = len(X), c = len(Y) with Y obtained from X by trimming only"""
+    def len_arg(op):
+        ors = v.pv.peel(v.pv.origins_operand(op))
+        if len(ors) != 1:
+            return None
+        o = strip_casts(next(iter(ors)))
+        if o[0] != 'call' or o[2] or (callee_path(v.pv.call_term(o)) or '') != 'core::str::<impl str>::len':
+            return None
+        return v.pv.call_term(o)['args'][0]
+    xa, ya = len_arg(a), len_arg(c)
+    if xa is None or ya is None:
+        return False
+    X = v.pv.peel(v.pv.origins_operand(xa))
+    Y = v.pv.through(v.pv.origins_operand(ya), SUBSLICE)
+    # `through` follows the receiver of every trimming call; Y must have been trimmed at least once and bottom out at X
+    direct = v.pv.peel(v.pv.origins_operand(ya))
+    return bool(X) and Y == X and direct != X
 
 
 def _bound_guard(v, bi, a_operand, k):
@@ -372,7 +625,7 @@ def _kind_guard(w, v, bi, t):
 
 
 def _promoted_kind(w, b, idx):
-    pb = w.bodies.get('%s::promoted[%d]' % (b.id, idx))
+    pb = w.bodies.get('%s::promoted[%d]' % ((idx[0], idx[1]) if isinstance(idx, tuple) else (b.id, idx)))
     if pb is None:
         return None
     for blk in pb.blocks:
@@ -434,8 +687,6 @@ def axiom_table():
          '`leading` is the minimum count of leading blanks over the continuation lines and the slice is guarded by line.len() > leading: the cut lies inside the run of ASCII blanks'),
         (r'^pretty::code_chain::\{impl\}::try_convert_dot_chain_plain\|index\|index\|',
          'chain[0] after `chain.last()?` returned Some: the vector is non-empty'),
-        (r'^pretty::layout::chain::\{impl\}::print_doc\|remove\|remove\|',
-         'a chain always yields >= 1 document: the innermost node of every resolved chain goes through the fallback converter and is pushed as Body'),
         (r'^pretty::math::\{impl\}::convert_math_delimited\|overflow:Sub\|',
          'a MathDelimited node has at least its opening and closing delimiter children (parser: math_delimited)'),
         (r'^pretty::math::\{impl\}::convert_math_delimited\|index\|index\|',
@@ -658,6 +909,11 @@ def r4_termination(w):
                     r.bad(cons, '%s|loop-no-progress' % b.short,
                           'a `while let .. = v.last()` loop in %s has a path back to its header that does not pop the collection' % b.short, b.loc(t['span']))
                 continue
+            v = v or BodyView(w, b)
+            carried = _descending_loop(w, b, v, h, blocks, chain, calls)
+            if carried is not None:
+                r.ok(cons | {'loop_variable': carried}, 'the loop walks down the syntax tree: its node variable is replaced on every iteration by a node reached through a typed accessor of itself')
+                continue
             r.bad(cons, '%s|loop-shape' % b.short,
                   'loop in %s is neither driven by Iterator::next nor a pop-what-you-inspect loop (condition calls: %s): termination not established'
                   % (b.short, [callee_path(tt) for _, tt in calls]), b.loc(b.blocks[h]['term']['span']))
@@ -680,6 +936,68 @@ def r4_termination(w):
         else:
             r.bad(cons, key, why, loc)
     return r
+
+
+def _descending_loop(w, b, v, h, blocks, chain, calls):
+    """`while let Pat(inner) = cur.accessor() { ..; cur = inner }`: a node-typed local that is loop-carried, whose every assignment inside the loop takes a
+    value reached through a descending accessor of the variable itself, and that is re-assigned on every path back to the header.  Returns its name."""
+    def node_typed(l):
+        st = b.locals[l]['ty']['s']
+        return st.startswith(('typst_syntax::ast::', '&typst_syntax::SyntaxNode', 'typst_syntax::LinkedNode', '&typst_syntax::LinkedNode', "&'a typst_syntax::SyntaxNode"))
+    inside = {}
+    for bi in blocks:
+        blk = b.blocks[bi]
+        for si, st in enumerate(blk['stmts']):
+            if st['s'] == 'assign' and not st['p']['proj'] and node_typed(st['p']['l']):
+                inside.setdefault(st['p']['l'], []).append((bi, si, st['rv']))
+    # the accessor the loop condition applies
+    cond_args = []
+    for x, tt in calls:
+        p, rp = callee_path(tt) or '', resolved_path(tt) or ''
+        if (DESCEND_ACCESSOR.search(p) or DESCEND_ACCESSOR.search(rp)) and tt['args']:
+            cond_args.append(frozenset(v.pv.peel(v.pv.origins_operand(tt['args'][0]))))
+    if not cond_args:
+        return None
+    for C, assigns in inside.items():
+        # loop-carried: also defined before the loop
+        outside = [d for d in v.pv.defs.get(C, []) if d[2] not in blocks] or C <= b.arg_count
+        if not outside:
+            continue
+        own = frozenset(v.pv.peel(v.pv._origins(C, (), frozenset())))
+        if not any(a and a <= own for a in cond_args):
+            continue
+
+        def desc_from(o, depth=0):
+            o = strip_casts(o)
+            if depth > 6 or o[0] != 'call':
+                return False
+            t = v.pv.call_term(o)
+            p, rp = callee_path(t) or '', resolved_path(t) or ''
+            if not t['args']:
+                return False
+            srcs = v.pv.peel(v.pv.origins_operand(t['args'][0]))
+            if IDENTITY.search(p) or IDENTITY.search(rp):
+                return bool(srcs) and all(desc_from(x, depth + 1) for x in srcs)
+            if DESCEND_ACCESSOR.search(p) or DESCEND_ACCESSOR.search(rp):
+                return bool(srcs) and frozenset(srcs) <= own
+            return False
+        ok = True
+        for (bi, si, rv) in assigns:
+            if rv['r'] != 'use':
+                ok = False
+                break
+            srcs = v.pv.peel(v.pv.origins_operand(rv['op']))
+            if not srcs or not all(desc_from(x) for x in srcs):
+                ok = False
+                break
+        if not ok:
+            continue
+        sw = chain[-1]
+        body_entries = [x for x in b.succs(sw) if x in blocks]
+        ablocks = {bi for (bi, si, rv) in assigns}
+        if all(not cfg.paths_avoiding(b, e, {h}, ablocks) for e in body_entries):
+            return b.locals[C].get('name') or '_%d' % C
+    return None
 
 
 DESCEND_ACCESSOR = re.compile(r"^typst_syntax::ast::\w+::<'[a_]\w*>::\w+$|^typst_syntax::SyntaxNode::children$|^typst_syntax::LinkedNode::<'a>::children$|Iterator.*::next$|"
@@ -1070,6 +1388,8 @@ def _byte_offset(w, v, operand, depth=0, seen=None):
         o = strip_casts(o)
         if o[0] == 'const':
             continue
+        if o[0] == 'cycle':
+            continue       # the loop-carried value of an accumulator: judged through its other definitions
         if o[0] == 'param':
             continue       # the caller's offset: judged at the call sites that pass a computed value (range entry: stated precondition)
         if o[0] == 'binop':
@@ -1157,6 +1477,23 @@ def _byte_offset(w, v, operand, depth=0, seen=None):
                     return ok, why
                 continue
             return False, 'offset comes from `%s`' % dp
+        if o[0] == 'agg':
+            rv = v.pv.agg_rvalue(o)
+            if rv.get('ak') in ('adt', 'tuple') and (rv.get('vname') in ('Some', 'None', 'Ok') or rv.get('ak') == 'tuple'):
+                # an Option / tuple wrapping the offset (an accumulator `min = Some(x)`): judge what it wraps
+                key = ('agg', b.id, o[1])
+                if key in seen:
+                    continue
+                seen.add(key)
+                bad = None
+                for op2 in rv['ops']:
+                    ok, why = _byte_offset(w, v, op2, depth + 1, seen)
+                    if not ok:
+                        bad = why
+                        break
+                if bad:
+                    return False, bad
+                continue
         return False, 'offset has provenance %s' % v.describe(o)
     return True, 'byte offset on a character boundary'
 
